@@ -29,6 +29,33 @@ type fragCase struct {
 	} `json:"frag"`
 }
 
+// topLevelNames lists the names the statements declare at top level (in order, without duplicates).
+func topLevelNames(stmts []any) []string {
+	var out []string
+	seen := map[string]bool{}
+	add := func(n any) {
+		if s, ok := n.(string); ok && s != "" && s != "_" && !seen[s] {
+			seen[s] = true
+			out = append(out, s)
+		}
+	}
+	for _, st := range stmts {
+		m, ok := st.(map[string]any)
+		if !ok {
+			continue
+		}
+		switch m["k"] {
+		case "def", "var", "vari", "const":
+			add(m["n"])
+		case "constg", "global", "destr":
+			for _, n := range seqOf(m["ns"]) {
+				add(n)
+			}
+		}
+	}
+	return out
+}
+
 func evalObs(ret ugo.Object, err error, g ugo.Map) string {
 	var o []any
 	if err != nil {
@@ -130,6 +157,16 @@ func init() {
 						bgot := evalObs(bret, berr, bg)
 						if bgot != got {
 							fail("noopt=%v fragment %d: session %s, as one script %s", noopt, k+1, got, bgot)
+						}
+						// the variable state after the fragment - also after the one that failed - is the state of the
+						// single script at that point: read every top-level name declared so far in both sessions
+						if names := topLevelNames(all); len(names) > 0 {
+							probe := []byte("return [" + strings.Join(names, ", ") + "]")
+							pr, _, perr := sess.Run(context.Background(), probe)
+							br, _, bperr := batch.Run(context.Background(), probe)
+							if ps, bs := evalObs(pr, perr, g), evalObs(br, bperr, bg); ps != bs {
+								fail("noopt=%v after fragment %d (failed: %v): variables %v are %s in the session, %s after the same statements as one script", noopt, k+1, failed, names, ps, bs)
+							}
 						}
 						if failed {
 							break
